@@ -129,7 +129,7 @@ def register(reg):
                 ('prev-x', c.x0.same(v[i - 2])), ('prev-y', c.y0.same(v[i - 1]))]
 
     reg.add(Contract(MEAS + '::compute_line_length',
-                     [('values', Arr('float')), ('value_offsets', Arr('int', 'uint32'))],
+                     [('values', Arr('float', narrow=True)), ('value_offsets', Arr('int', 'uint32'))],
                      returns=Flt(), requires=cll_requires, ensures=cll_ensures,
                      loops={0: Loop(invariant=cll_outer, var='offset_ind'), 1: Loop(invariant=cll_inner, var='i')},
                      props=P, fuel=2, solver_opts={'arith.nl': False}))
@@ -157,7 +157,7 @@ def register(reg):
                 ('sum', c.area.same(RINGSUM(v.A, v.off, o.A, o.off, j) + TS(v.A, v.off + c.start, v.off + k)))]
 
     reg.add(Contract(MEAS + '::compute_area',
-                     [('values', Arr('float', finite=True)), ('value_offsets', Arr('int', 'uint32'))],
+                     [('values', Arr('float', finite=True, narrow=True)), ('value_offsets', Arr('int', 'uint32'))],
                      returns=Flt(), requires=ca_requires, ensures=ca_ensures,
                      loops={0: Loop(invariant=ca_outer, var='offset_ind'), 1: Loop(invariant=ca_inner, var='k')},
                      props=P, fuel=2, solver_opts={'arith.nl': False}, note='coordinates finite (area of rings with non-finite vertices is not specified)'))
@@ -276,6 +276,34 @@ def _map_gen(depth):
     return gen
 
 
+def _kernel_gen(fn):
+    """inputs of the measure kernels themselves: the generic nested buffers, or - the coordinate buffer being of
+    any coordinate subtype - float32 / int32 buffers of thin integer triangles far from the origin, whose shoelace
+    products need up to 41 bits and largely cancel"""
+    def gen(rng, config):
+        if rng.random() < 0.4:
+            values, offs = gen_nested(rng, 1, finite=(fn == 'compute_area'))
+            return [values, offs[0]]
+        vals, offs = [], [0]
+        for _ in range(rng.randint(1, 3)):
+            ax, ay = rng.randint(500000, 1200000), rng.randint(300000, 1000000)
+            m = rng.choice([1000, 20000, 200000])
+            dx, dy = rng.randint(-m, m), rng.randint(-m, m)
+            ex, ey = rng.choice([(1, 0), (0, 1), (-1, 2), (3, -1), (40, 25)])
+            ring = [ax, ay, ax + dx, ay + dy, ax - dx + ex, ay - dy + ey, ax, ay]
+            if rng.random() < 0.5:
+                ring = [c for p_ in list(zip(ring[0::2], ring[1::2]))[::-1] for c in p_]
+            vals += ring
+            offs.append(len(vals))
+        dt = rng.choice(['float32', 'float32', 'int32', 'float64'])
+        data = [float(v).hex() for v in vals] if dt.startswith('float') else vals
+        return [{'k': 'array', 'dtype': dt, 'shape': [len(vals)], 'data': data},
+                {'k': 'array', 'dtype': 'uint32', 'shape': [len(offs)], 'data': offs}]
+    return gen
+
+
 def attach_generators(reg):
+    for fn in ('compute_line_length', 'compute_area'):
+        reg.by_target[MEAS + '::' + fn].gen = _kernel_gen(fn)
     for d in (1, 2, 3):
         reg.by_target[BL + f'::_geometry_map_nested{d}'].gen = _map_gen(d)
